@@ -228,9 +228,9 @@ def useOrOwn (w : WTypes) (st : St) (owner : Owner) (name : Str) (referenced cre
       | some _ => st
       | none => { st with owners := (created, (other, orig)) :: st.owners })
   | none =>
-    -- take ownership; `assert!(prev.is_none())`
+    -- take ownership unless it already has an owner: `owners.entry(created).or_insert(..)`
     match lookup st.owners created with
-    | some _ => .panic "use_or_own: assert!(prev.is_none())"
+    | some _ => .ok st
     | none => .ok { st with owners := (created, (owner, name)) :: st.owners }
 
 /-- `TypeConverter::resource` -/
